@@ -20,7 +20,8 @@ RULE = ("Hypothesis draws series (10 classes incl. constant / few values, n 3..9
         "also with non-integer values), positive affine maps a*x+b staying in int16. Oracles: independent mean-filled "
         "Pearson model to 1e-6; |r| <= 1+1e-9; 0 when no valid pair or no variance; r(a*x+b) == r(x) to 1e-6; integer/nodata "
         "== float/NaN encodings to 1e-9; autocorr (y,x,t) == autocorr_tyx == accessor in both layouts == float32 of the 1-d "
-        "value. Non-trivial: at least one missing cell and >= 1 valid pair and non-zero variance; distinct by content hash.")
+        "value. Non-trivial: at least one missing cell and >= 1 valid pair and non-zero variance; distinct by content hash. "
+        " Added after the fourth seeded round: Sub-check 'history': one array object queried repeatedly while its nodata attribute and cells are edited in place and other same-shaped cubes / equal dask blocks are processed; earlier results are re-compared at the end.")
 ASSUME = ["numpy float64 arithmetic for the reference model"]
 
 ac1d = ops.autocorr_1d
